@@ -208,10 +208,12 @@ func init() {
 	reg("tensor.Slice.Start", "pure accessor: some int", pureInt("slice_start"))
 	reg("tensor.Slice.End", "pure accessor: some int", pureInt("slice_end"))
 	reg("tensor.Slice.Step", "pure accessor: some int", pureInt("slice_step"))
-	reg("(*gorgonia.org/tensor.array).Len", "pure accessor: number of elements (some int >= 0)", func(x *Exec, fr *Frame, i *ssa.Call, fn *ssa.Function, args []Val) Val {
-		v := x.freshVal("array_len", i.Type())
-		x.assume("true", sx(">=", v.C[0], "0"))
-		return v
+	reg("tensor.Tensor.IsScalar", "true iff the shape has no dimensions (rank 0)", func(x *Exec, fr *Frame, i *ssa.Call, fn *ssa.Function, args []Val) Val {
+		return boolVal(eq(x.tRank(fr.curSt, tensorRef(args[0])), "0"))
+	})
+	reg("(*gorgonia.org/tensor.array).Len", "number of elements of the tensor's backing store", func(x *Exec, fr *Frame, i *ssa.Call, fn *ssa.Function, args []Val) Val {
+		// the receiver is the Dense the array is embedded in (see call: promoted methods)
+		return Val{T: i.Type(), C: []string{x.tBlen(fr.curSt, args[0].C[0])}}
 	})
 	// ------------------------------------------------------------------ sort
 	reg("sort.Ints", "sorts in place: afterwards non-decreasing (pairwise) and a permutation of the old contents (bijection on the index range); nothing else changes. Two derived facts are stated as well: equal old elements end up adjacent, pairwise distinct old elements end up strictly increasing", func(x *Exec, fr *Frame, i *ssa.Call, fn *ssa.Function, args []Val) Val {
